@@ -247,6 +247,16 @@ fn main() {
         ("5000 values, two clusters".into(), (0..2500).chain((0..2500).map(|i| (1 << 40) + i * 3)).collect(), (1 << 40) + 7500),
         ("l=0 runs".into(), (0..300).map(|i| i / 100).collect(), 2),
     ];
+    // clustered sequences of 64 consecutive sizes: the word counts of the lower and of the upper bits take both
+    // parities, so each inner array lands on both 0 and 8 mod 16 in the stream; the gap leaves several empty
+    // words in the upper bits, and the last element before the gap moves through the words
+    let mut seqs = seqs;
+    for n in 1000..1064usize {
+        let head = n / 2 + n % 7;
+        let sq: Vec<usize> = (0..head).map(|i| i * 3).chain((0..n - head).map(|i| 3_000_000 + i * 2)).collect();
+        let u = *sq.last().unwrap() + n % 3;
+        seqs.push((format!("{n} values, two clusters ({head} + {})", n - head), sq, u));
+    }
     for (cname, s, u) in &seqs {
         let n = s.len();
         let mk = || {
@@ -256,7 +266,7 @@ fn main() {
             }
             b
         };
-        let qs: Vec<usize> = s.iter().flat_map(|&x| [x.wrapping_sub(1), x, x + 1]).chain([0, *u, u + 1, usize::MAX]).collect();
+        let qs: Vec<usize> = s.iter().flat_map(|&x| [x.wrapping_sub(1), x, x + 1]).chain([0, *u, u + 1, usize::MAX]).chain(s.windows(2).filter(|w| w[1] - w[0] > 1000).flat_map(|w| [w[0] + (w[1] - w[0]) / 2, w[0] + 500, w[1] - 500])).collect();
         roundtrip!(&mut ctx, dir, "EliasFano", cname, EliasFano, mk().build(), |o, l| { o.len() == l.len() && o.iter().eq(l.iter()) });
         roundtrip!(&mut ctx, dir, "EfSeq", cname, EfSeq, mk().build_with_seq(), |o, l| { o.len() == l.len() && (0..n).all(|i| o.get(i) == l.get(i)) && o.iter().eq(l.iter()) && (0..=n).step_by(7).all(|k| o.iter_from(k).eq(l.iter_from(k))) });
         roundtrip!(&mut ctx, dir, "EfDict", cname, EfDict, mk().build_with_dict(), |o, l| { o.len() == l.len() && qs.iter().all(|&q| o.index_of(q) == l.index_of(q)) });
